@@ -59,6 +59,31 @@ Definition l1_admin (m : L1.msg) : bool :=
   | _ => false
   end.
 
+(* Messages of OTHER bridges and bridge creation.  Account-space assumptions (DESIGN section 4:
+   escrow addresses are distinct from each other, from user / module addresses, and nobody
+   signs for one) appear as guards: the message is not spent from our escrow, the other
+   bridge's escrow is not ours, the community pool is not our escrow. *)
+Definition other_ok (c : scfg) (m : L1.msg) : bool :=
+  match m with
+  | L1.MDeposit sender b _ _ _ _ =>
+      negb (b =? bid c)%N && negb (bool_decide (L1.resolve (c1 c) sender = Some (escrow_of c))) &&
+      negb (bool_decide (L1.escrow (c1 c) b = escrow_of c))
+  | L1.MFinalize _ b _ _ _ _ _ _ _ _ _ _ =>
+      negb (b =? bid c)%N && negb (bool_decide (L1.escrow (c1 c) b = escrow_of c))
+  | L1.MPropose _ b _ _ _ | L1.MDelete _ b _ => negb (b =? bid c)%N
+  | L1.MCreateBridge creator _ =>
+      negb (bool_decide (L1.resolve (c1 c) creator = Some (escrow_of c))) &&
+      negb (bool_decide (L1.pool (c1 c) = escrow_of c))
+  | _ => false
+  end.
+(* a payout of another bridge that names OUR escrow as recipient is a plain credit: a donation *)
+Definition other_donation (c : scfg) (m : L1.msg) : option (bytes * Z) :=
+  match m with
+  | L1.MFinalize _ _ _ _ _ _ to d amt _ _ _ =>
+      if bool_decide (L1.resolve (c1 c) to = Some (escrow_of c)) then Some (d, amt) else None
+  | _ => None
+  end.
+
 Inductive smsg :=
 | SDeposit (e : L1.env) (sender to d : bytes) (amt : Z) (data : bytes)       (* L1 user deposit into the bridge *)
 | SSend1 (e : L1.env) (from to : N) (d : bytes) (amt : Z)                    (* L1 bank send; to the escrow = a donation *)
@@ -67,7 +92,8 @@ Inductive smsg :=
 | SPropose (e : L1.env) (proposer : bytes) (idx l2block lo hi v : N) (bh : bytes)   (* honest output over events (lo, hi] *)
 | SDelete (e : L1.env) (challenger : bytes) (idx : N)
 | SClaim (e : L1.env) (sender : bytes) (idx m lo hi v : N) (bh : bytes)      (* claim of recorded withdrawal m against output idx *)
-| SAdmin1 (e : L1.env) (m : L1.msg).                                        (* L1 role / config / params / environment message *)
+| SAdmin1 (e : L1.env) (m : L1.msg)                                         (* L1 role / config / params / environment message *)
+| SOther (e : L1.env) (m : L1.msg).                                         (* bridge creation; deposit / propose / delete / claim on ANOTHER bridge *)
 
 Definition set_l1 (s : sys) (x : L1.l1state) : sys := {| l1 := x; l2 := l2 s; paid := paid s; donated := donated s |}.
 Definition set_l2 (s : sys) (x : L2.l2state) : sys := {| l1 := l1 s; l2 := x; paid := paid s; donated := donated s |}.
@@ -133,6 +159,16 @@ Definition sys_step (c : scfg) (s : sys) (m : smsg) : sys * bool :=
       | None => (s, false)
       end
   | SAdmin1 e m1 => if l1_admin m1 then lift1 c s e m1 else (s, false)
+  | SOther e m1 =>
+      if other_ok c m1 then
+        match lift1 c s e m1 with
+        | (s', true) => (match other_donation c m1 with
+                         | Some x => {| l1 := l1 s'; l2 := l2 s'; paid := paid s'; donated := x :: donated s' |}
+                         | None => s'
+                         end, true)
+        | r => r
+        end
+      else (s, false)
   end.
 
 Fixpoint sys_run (c : scfg) (s : sys) (h : list smsg) : sys :=
@@ -168,3 +204,50 @@ Definition fresh (c : scfg) (s : sys) : Prop :=
   (∀ d, getb (L1.bk (l1 s)) (escrow_of c) d = 0%Z) ∧ L1.seq_of (l1 s) (bid c) = 1%N ∧
   L2.wlog (l2 s) = [] ∧ L2.pairs (l2 s) = ∅ ∧ L2.next_l1 (l2 s) = 1%N ∧ L2.next_l2 (l2 s) = 1%N ∧
   (∀ d', gets (L2.bk (l2 s)) d' = 0%Z) ∧ paid s = [] ∧ donated s = [].
+
+(* a consistent bank: no negative balance, and the supply of every denom is the sum of its balances *)
+Definition bal_total (b : bank) (d : bytes) : Z :=
+  map_fold (λ (k : N * denom) (v acc : Z), if decide (k.2 = d) then (v + acc)%Z else acc) 0%Z (bal b).
+Definition bank_sane (b : bank) : Prop :=
+  (∀ a d, (0 ≤ getb b a d)%Z) ∧ (∀ d, bal_total b d = gets b d).
+(* genesis: fresh, with a consistent L2 bank *)
+Definition genesis (c : scfg) (s : sys) : Prop := fresh c s ∧ bank_sane (L2.bk (l2 s)).
+
+(* ---- the drain schedule ---- *)
+(* results (accepted?) of the steps of a history, in order *)
+Fixpoint sys_oks (c : scfg) (s : sys) (h : list smsg) : list bool :=
+  match h with
+  | [] => []
+  | m :: h' => (sys_step c s m).2 :: sys_oks c (sys_step c s m).1 h'
+  end.
+(* the claims of the listed L2 sequences against output idx committing to events (lo, hi] *)
+Definition claim_steps (e : L1.env) (sender : bytes) (idx lo hi v : N) (bh : bytes) (ms : list N) : list smsg :=
+  map (λ m, SClaim e sender idx m lo hi v bh) ms.
+(* a recorded withdrawal that carries value, names an L1-valid recipient and is not paid yet *)
+Definition claimable (c : scfg) (s : sys) (m : N) : Prop :=
+  ∃ w, find_w (l2 s) m = Some w ∧ m ∉ paid s ∧ (0 < L2.w_amt w)%Z ∧ is_Some (L1.resolve (c1 c) (L2.w_to w)).
+(* output idx of the bridge stores the honest root over the events (lo, hi] and is final at e *)
+Definition committed_final (c : scfg) (s : sys) (e : L1.env) (idx lo hi v : N) (bh : bytes) : Prop :=
+  ∃ x o, L1.configs (l1 s) !! bid c = Some x ∧ L1.outputs (l1 s) !! (bid c, idx) = Some o ∧
+         L1.o_root o = honest_root c (l2 s) lo hi v bh ∧ L1.is_final x e o = true.
+
+(* [n] consecutive sequences starting at [lo] *)
+Fixpoint seq_from (n : nat) (lo : N) : list N :=
+  match n with O => [] | S n' => lo :: seq_from n' (lo + 1)%N end.
+(* the relays of the listed event sequences by executor [ex] at L1 height [height]; [hk k] is the
+   structural description of the hook payload of event k *)
+Definition relay_steps (ex : bytes) (height : N) (hk : N → L2.hookp) (ks : list N) : list smsg :=
+  map (λ k, SRelay k ex height (hk k)) ks.
+(* the emitted but not yet relayed sequences, in order *)
+Definition pending_seqs (c : scfg) (s : sys) : list N :=
+  seq_from (N.to_nat (L1.seq_of (l1 s) (bid c) - L2.next_l1 (l2 s))) (L2.next_l1 (l2 s)).
+
+(* The drain schedule from state [s]: relay every pending emitted event in order; propose the
+   honest output over ALL withdrawals recorded after those relays; then (at a later block time)
+   submit the listed claims against it. *)
+Definition drain (c : scfg) (s : sys) (ex : bytes) (height : N) (hk : N → L2.hookp)
+           (e1 : L1.env) (proposer : bytes) (idx l2block v : N) (bh : bytes)
+           (e2 : L1.env) (sender : bytes) (ms : list N) : list smsg :=
+  let relays := relay_steps ex height hk (pending_seqs c s) in
+  let hi := (L2.next_l2 (l2 (sys_run c s relays)) - 1)%N in
+  relays ++ [SPropose e1 proposer idx l2block 0 hi v bh] ++ claim_steps e2 sender idx 0 hi v bh ms.
